@@ -221,15 +221,26 @@ func (t *lockedWriter) Write(p []byte) (int, error) {
 // buildGocc builds gocc from /repo's current working tree.
 func (c *Ctx) buildGocc() {
 	c.Gocc = filepath.Join(c.Scratch, "gocc")
-	r := runCmd(cmdOpts{Dir: repoRoot, Env: goEnv(), Timeout: 5 * time.Minute}, "go", "build", "-o", c.Gocc, ".")
-	if r.Code != 0 {
+	var out string
+	// a build can fail for reasons that have nothing to do with the tree (the shared build cache
+	// being cleaned by another process at that moment): three attempts
+	for attempt := 0; attempt < 3; attempt++ {
+		if attempt > 0 {
+			time.Sleep(10 * time.Second)
+		}
+		r := runCmd(cmdOpts{Dir: repoRoot, Env: goEnv(), Timeout: 10 * time.Minute}, "go", "build", "-o", c.Gocc, ".")
+		if r.Code == 0 {
+			return
+		}
 		// fall back to the newer local toolchain
 		env := append(goEnv(), "GOTOOLCHAIN=local")
-		r2 := runCmd(cmdOpts{Dir: repoRoot, Env: env, Timeout: 5 * time.Minute}, "go1.26", "build", "-o", c.Gocc, ".")
-		if r2.Code != 0 {
-			infra("cannot build gocc from %s:\n%s\n%s", repoRoot, r.Out, r2.Out)
+		r2 := runCmd(cmdOpts{Dir: repoRoot, Env: env, Timeout: 10 * time.Minute}, "go1.26", "build", "-o", c.Gocc, ".")
+		if r2.Code == 0 {
+			return
 		}
+		out = r.Out + "\n" + r2.Out
 	}
+	infra("cannot build gocc from %s:\n%s", repoRoot, out)
 }
 
 // parallel runs f(i) for i in [0,n) on up to NumCPU workers.
